@@ -21,6 +21,13 @@ LookupIn(rs, ch) ==
   LET idx == {i \in 1 .. Len(rs) : Covers(rs[i], ch)}
   IN IF idx = {} THEN NoRef ELSE rs[SetMax(idx)][3]
 Lookup(ch) == LookupIn(regs, ch)
+\* The same with every range taken literally (no cut at U+FFFE). For a character above U+FFFE under a registration that starts
+\* at or below U+FFFE and reaches beyond it the two readings differ; "whose range contains it" supports the literal one, "the
+\* range the tokenizer is configured for" the cut - a look-up there may answer with either.
+CoversLit(r, ch) == r[1] <= ch /\ ch <= r[2] /\ ch >= 0
+LookupLitIn(rs, ch) ==
+  LET idx == {i \in 1 .. Len(rs) : CoversLit(rs[i], ch)}
+  IN IF idx = {} THEN NoRef ELSE rs[SetMax(idx)][3]
 
 CInit == regs = <<>>
 AddInterval(lo, hi, ref) == lo <= hi /\ regs' = Append(regs, <<lo, hi, ref>>)
